@@ -2,6 +2,7 @@ package sim
 
 import (
 	"fmt"
+	"math/big"
 	"sort"
 	"time"
 
@@ -1021,7 +1022,7 @@ func (m *MW) Audit(mint string) AuditResult {
 			ps, r := aud.Swap(mint, []*HProof{&cp}, outs)
 			if r.OK() {
 				res.Accepted++
-				res.RedeemableSat += cp.Amount
+				res.RedeemableSat = satAdd(res.RedeemableSat, cp.Amount)
 				if carrier == nil && len(ps) > 0 {
 					carrier = ps[0]
 					for _, x := range ps {
@@ -1046,7 +1047,7 @@ func (m *MW) Audit(mint string) AuditResult {
 		ps, r := aud.Swap(mint, ins, outs)
 		if r.OK() {
 			res.Accepted++
-			res.RedeemableSat += cp.Amount
+			res.RedeemableSat = satAdd(res.RedeemableSat, cp.Amount)
 			carrier = nil
 			for _, x := range ps {
 				if carrier == nil || x.Amount > carrier.Amount {
@@ -1066,8 +1067,15 @@ func (m *MW) Audit(mint string) AuditResult {
 	}
 	m.rc.S.ProbeN("audit_proofs_tried", res.Tried)
 	m.rc.S.ProbeN("audit_proofs_accepted", res.Accepted)
+	// big integers: a mint that signed amounts near 2^64 must not slip through a wrapped sum
+	lhsBig := new(big.Int).Mul(new(big.Int).SetUint64(res.RedeemableSat), big.NewInt(1000))
+	lhsBig.Add(lhsBig, new(big.Int).SetUint64(led.OutflowMsat))
+	lhsBig.Add(lhsBig, new(big.Int).SetUint64(maySucceed))
 	lhs := res.RedeemableSat*1000 + led.OutflowMsat + maySucceed
-	if lhs > led.InflowMsat {
+	if !lhsBig.IsUint64() {
+		lhs = ^uint64(0)
+	}
+	if lhsBig.Cmp(new(big.Int).SetUint64(led.InflowMsat)) > 0 {
 		W.Book.Violate("C02.conservation", "audit", "mint %s: redeemable %d sat + Lightning outflow %d msat (+%d msat still possible) = %d msat exceeds Lightning inflow %d msat",
 			mint, res.RedeemableSat, led.OutflowMsat, maySucceed, lhs, led.InflowMsat)
 	}
@@ -1082,7 +1090,7 @@ func (m *MW) StepAdversarial() {
 		m.StepFund()
 		return
 	}
-	mode := m.T.Choose("adv.mode", 10)
+	mode := m.T.Choose("adv.mode", 12)
 	if m.forceAdvMode > 0 {
 		mode = m.forceAdvMode
 	}
@@ -1146,6 +1154,32 @@ func (m *MW) StepAdversarial() {
 					r2 := a.Melt(mint, lq.ID, one)
 					m.afterMelt(mint, lq, one, r2)
 					a.Mint(mint, q, m.W.NewOutputs(Split(64), ks.ID), "")
+				}
+			}
+			return
+		case 10: // swap outputs, each of a real denomination, that sum to just below 2^64: adding the input
+			// fee to them wraps around
+			x := uint64(m.T.Choose("adv.below", 4))
+			_, r = a.Swap(mint, ins, m.W.NewOutputs(SplitKeyed(^uint64(0)-x), ks.ID))
+			m.rc.S.Probe("adv_swap_outputs_near_2_64")
+		case 11: // mint request whose outputs (real denominations) sum to 2^64 + the quote amount
+			q, _ := a.ReqMintQuote(mint, 8, false)
+			if q == nil {
+				return
+			}
+			m.W.LN.PayExternal(q.Hash)
+			var amts []uint64
+			for i := 0; i < 32; i++ {
+				amts = append(amts, uint64(1)<<59)
+			}
+			amts = append(amts, Split(8)...)
+			m.rc.S.Probe("adv_mint_outputs_wrap")
+			if ps, mr := a.Mint(mint, q, m.W.NewOutputs(amts, ks.ID), ""); mr.OK() {
+				m.User.Purse[mint] = append(m.User.Purse[mint], ps...)
+			} else {
+				// refused: the honest request goes through
+				if ps2, mr2 := a.Mint(mint, q, m.W.NewOutputs(Split(8), ks.ID), ""); mr2.OK() {
+					m.User.Purse[mint] = append(m.User.Purse[mint], ps2...)
 				}
 			}
 			return
